@@ -46,6 +46,10 @@ type c08Spec struct {
 	Chunk    int
 	Stalls   bool
 	CancelAt int
+	// ProfileFirst: (engine mode) the RPS profile has fewer tokens than the ammo bound and the disk is slow
+	ProfileFirst bool
+	SlowRead     time.Duration
+	ShotDur      time.Duration
 }
 
 var c08Kinds = []string{"uri", "uripost", "raw", "json-lines", "json-pretty", "json-array", "grpc/json", "http/scenario", "grpc/scenario", "json-file", "json-inline"}
@@ -182,6 +186,21 @@ func runC08(r *R) {
 	}
 	sp.Chunk = []int{0, 0, 1, 3, 7, 64, 4096}[w.Draw(7)]
 	sp.Stalls = w.Draw(6) == 0
+	sp.ProfileFirst = w.Draw(3) == 0
+	sp.ShotDur = []time.Duration{0, 30 * time.Millisecond, 100 * time.Millisecond}[w.Draw(3)]
+	sp.SlowRead = []time.Duration{3 * time.Millisecond, 7 * time.Millisecond, 20 * time.Millisecond, 45 * time.Millisecond, 60 * time.Millisecond, 90 * time.Millisecond, 130 * time.Millisecond}[w.Draw(7)]
+	if r.Mode == "" && w.Draw(6) == 0 || r.Mode == "cancel-in-read" {
+		// focused cell: a streaming HTTP provider is cancelled by the engine (the load profile ends first) while it
+		// is inside a slow read - of a line, of a blank line, or of the end of the file before the next pass
+		sp.Kind = []string{"uri", "uripost", "raw"}[w.Draw(3)]
+		sp.Preload, sp.Engine, sp.ProfileFirst = false, true, true
+		sp.Limit, sp.Passes = 0, []int{0, 0, 7}[w.Draw(3)]
+		n = 1 + w.Draw(2)
+		sp.Cons = 1 + w.Draw(2)
+		sp.SlowRead = []time.Duration{45 * time.Millisecond, 60 * time.Millisecond, 90 * time.Millisecond, 130 * time.Millisecond, 400 * time.Millisecond}[w.Draw(5)]
+		sp.ShotDur = []time.Duration{0, 10 * time.Millisecond, 30 * time.Millisecond, 100 * time.Millisecond, 250 * time.Millisecond}[w.Draw(5)]
+		sp.Chunk = []int{0, 4, 16, 64}[w.Draw(4)]
+	}
 	conf, files, entries, desc := c08Build(w, sp.Kind, n, sp.Preload, sp.Limit, sp.Passes)
 	sp.Entries = entries
 	bound := minBound(sp.Limit, sp.Passes, entries)
@@ -304,6 +323,19 @@ func c08Engine(r *R, sp c08Spec, conf map[string]interface{}, files map[string][
 	if bound >= 0 {
 		tokens = bound + 3 + sp.Cons
 	}
+	// in a third of the runs the load profile ends before the ammo does: the engine cancels the provider, possibly
+	// while it is reading (the disk is slow then), and the run must still end successfully
+	profileFirst := false
+	if sp.ProfileFirst {
+		profileFirst = true
+		if bound > 1 {
+			tokens = 1 + bound/2
+		} else if bound < 0 {
+			tokens = 7
+		} else {
+			profileFirst = false
+		}
+	}
 	var (
 		runErr   error
 		runDone  bool
@@ -322,23 +354,49 @@ func c08Engine(r *R, sp c08Spec, conf map[string]interface{}, files map[string][
 			disk.Plans[name] = &pp
 		}
 		GlobalFs.Set(disk)
+		if profileFirst {
+			for name := range files {
+				pl := simfs.NoPlan()
+				if old, ok := disk.Plans[name]; ok {
+					pl = *old
+				}
+				// (so slow that the end of the profile can fall into any read of the provider: a line, a blank line, the
+				// read that finds the end of the file before the next pass)
+				pl.Delay = sp.SlowRead
+				if pl.ReadChunk == 0 {
+					pl.ReadChunk = 16
+				}
+				pp := pl
+				disk.Plans[name] = &pp
+			}
+		}
 		p, err := decodeProvider(conf)
 		if err != nil {
 			newErr = err
 			return
 		}
 		log = stubs.NewLog()
-		fac := &stubs.GunFactory{Log: log, Script: stubs.DefaultGunScript()}
+		script := stubs.DefaultGunScript()
+		if profileFirst {
+			// shots take a while: the provider reads the next portion of the file while the last shots are in flight
+			d := sp.ShotDur
+			script.ShotDur = func(int, int) time.Duration { return d }
+		}
+		fac := &stubs.GunFactory{Log: log, Script: script}
 		startup, err := decodeSchedule(map[string]interface{}{"type": "once", "times": sp.Cons})
 		if err != nil {
 			panic(err)
 		}
 		pool := engine.InstancePoolConfig{
-			Provider:        p,
+			Provider:        &stubs.RecProvider{Provider: p, Log: log},
 			Aggregator:      aggregator.NewDiscard(),
 			NewGun:          fac.New,
 			StartupSchedule: startup,
 			NewRPSSchedule: func() (core.Schedule, error) {
+				if profileFirst {
+					// spread over time so that the end of the profile falls into a read
+					return decodeSchedule(map[string]interface{}{"type": "const", "ops": 20, "duration": fmt.Sprintf("%dms", tokens*50)})
+				}
 				return decodeSchedule(map[string]interface{}{"type": "once", "times": tokens})
 			},
 		}
@@ -371,12 +429,29 @@ func c08Engine(r *R, sp c08Spec, conf map[string]interface{}, files map[string][
 		return
 	}
 	r.Note("engine-mode")
+	if log != nil {
+		for _, e := range log.Snapshot() {
+			if e.Kind == "prov-run-out" {
+				what := "nil"
+				if e.Err != "" {
+					what = e.Err
+					if len(what) > 40 {
+						what = what[:40]
+					}
+				}
+				r.Note("engine-mode/provider-run-returned:" + what)
+			}
+		}
+	}
 	if sp.Cons >= 2 {
 		r.NonTrivial()
 	}
 	want := tokens
-	if bound >= 0 {
+	if bound >= 0 && bound < tokens {
 		want = bound
+	}
+	if profileFirst {
+		r.Note("engine-mode/profile-ends-before-ammo/" + ctxSig)
 	}
 	if runErr != nil {
 		r.Fail("engine-run-error/"+ctxSig, "Engine.Run returned %q for a pool whose provider reached its bounds (%d shots, bound %d): want a successful end", runErr, shots, bound)
